@@ -11,7 +11,13 @@
 (*         fns = [name (in the variant), origin (in the indexed source)],    *)
 (*         alerts = [sig, fn, one (confidence is exactly 1.0)]               *)
 (*                                                                         *)
-(* State: byfn[db] / hashof[db] = the signatures added so far.               *)
+(*  migrate `sfw migrate --from <json db> --to <new PebbleDB>`: count reported  *)
+(*  stats  `sfw stats --db <db>`: signature_count reported                    *)
+(*                                                                         *)
+(* State: byfn[db] / hashof[db] = the signatures added so far.  A migrate    *)
+(* copies the source's signatures into the destination and must report their *)
+(* number; stats must report the number of signatures the database holds;    *)
+(* scans of a migrated database obey the same clause as scans of its source. *)
 (* Scan clause: every function of the variant whose origin was indexed into  *)
 (* db has an alert with confidence 1.0 for THAT signature.  In exact mode    *)
 (* the scanners return one alert per function by design; when several        *)
@@ -49,12 +55,20 @@ Index(e) ==
       h1 == [i \in {s.id : s \in S} |-> (CHOOSE s \in S : s.id = i).hash]
   IN /\ byfn' = [d \in DOMAIN byfn \cup {e.db} |-> IF d = e.db THEN Merge(Get(byfn, d), f1) ELSE byfn[d]]
      /\ hashof' = [d \in DOMAIN hashof \cup {e.db} |-> IF d = e.db THEN Merge(Get(hashof, d), h1) ELSE hashof[d]]
+Migrate(e) ==
+  /\ byfn' = [d \in DOMAIN byfn \cup {e.to} |-> IF d = e.to THEN Merge(Get(byfn, d), Get(byfn, e.from)) ELSE byfn[d]]
+  /\ hashof' = [d \in DOMAIN hashof \cup {e.to} |-> IF d = e.to THEN Merge(Get(hashof, d), Get(hashof, e.from)) ELSE hashof[d]]
+Count(db) == Cardinality(DOMAIN Get(hashof, db))
+Judge(e) == CASE e.ev = "scan" -> ScanOK(e)
+              [] e.ev = "migrate" -> e.count = Count(e.from)
+              [] e.ev = "stats" -> e.count = Count(e.db)
+              [] OTHER -> TRUE
 Next == /\ l <= Len(TraceData)
         /\ LET e == TraceData[l] IN
              IF e.ev = "index"
              THEN Index(e) /\ UNCHANGED ok
-             ELSE /\ UNCHANGED <<byfn, hashof>>
-                  /\ LET b == ScanOK(e) IN
+             ELSE /\ (IF e.ev = "migrate" THEN Migrate(e) ELSE UNCHANGED <<byfn, hashof>>)
+                  /\ LET b == Judge(e) IN
                        /\ ok' = (ok /\ b)
                        /\ (IF b THEN TRUE
                            ELSE /\ (IF TLCGet(1) = 0 THEN TLCSet(1, l) ELSE TRUE)
